@@ -46,6 +46,8 @@ mutual
     | append (buf : Bytes) (e : JsExpr) (ds : List Directive)
     /-- `var x = e;` -/
     | var (x : Bytes) (e : JsExpr)
+    /-- `var x = '';` -/
+    | varEmpty (x : Bytes)
     /-- `if (c1) {…} else if (c2) {…} … [else {…}]` -/
     | ifs (conds : JsConds)
     /-- `var x = list.length;` -/
@@ -181,6 +183,7 @@ mutual
     | .appendLit buf t, env => appendTo env buf (.str t)
     | .append buf e ds, env => withVal (applyCalls F ds (eval env e)) fun v => appendTo env buf v
     | .var x e, env => withVal (eval env e) fun v => .ok (setLocal env x v)
+    | .varEmpty x, env => .ok (setLocal env x (.str []))
     | .ifs conds, env => execConds conds env
     | .varLength x list, env => withVal (eval env (.call1 .length (.local list))) fun v => .ok (setLocal env x v)
     | .varIndex x list idx, env => withVal (indexVar env list idx) fun v => .ok (setLocal env x v)
